@@ -28,6 +28,9 @@ import (
 var (
 	verifRoot = envOr("VERIF_ROOT", "/verif")
 	repoRoot  = envOr("VERIF_REPO", "/repo")
+	// VERIF_OUT redirects evidence/ and replays/ (used when running the checks against seeded changes,
+	// so that the committed evidence keeps describing the unchanged tree)
+	outRoot = envOr("VERIF_OUT", verifRoot)
 	goBin     = findGo()
 )
 
@@ -169,6 +172,16 @@ func buildOne(id, tier string, race bool, extraOverlay map[string]string, suffix
 	os.WriteFile(ovPath, ov, 0o644)
 	worker := filepath.Join(dir, "vworker"+suffix)
 	args := []string{"build", "-tags", "verif", "-overlay", ovPath, "-o", worker}
+	if repoRoot != "/repo" {
+		// VERIF_REPO names another checkout of the repository (a scratch worktree holding a
+		// seeded change): build against it through a private copy of go.mod
+		hm, _ := os.ReadFile(filepath.Join(verifRoot, "harness", "go.mod"))
+		hs, _ := os.ReadFile(filepath.Join(verifRoot, "harness", "go.sum"))
+		mod := strings.Replace(string(hm), "=> /repo", "=> "+repoRoot, 1)
+		os.WriteFile(filepath.Join(dir, "go.mod"), []byte(mod), 0o644)
+		os.WriteFile(filepath.Join(dir, "go.sum"), hs, 0o644)
+		args = append(args, "-modfile="+filepath.Join(dir, "go.mod"))
+	}
 	if race {
 		args = append(args, "-race")
 	}
@@ -756,7 +769,7 @@ func run(id, tier string) int {
 		raw, _ := json.MarshalIndent(byClass, "", " ")
 		os.WriteFile(dump, raw, 0o644)
 	}
-	os.MkdirAll(filepath.Join(verifRoot, "replays", id), 0o755)
+	os.MkdirAll(filepath.Join(outRoot, "replays", id), 0o755)
 	for _, c := range classes {
 		fs := byClass[c]
 		if c == "harness-panic" {
@@ -769,7 +782,7 @@ func run(id, tier string) int {
 		}
 		violations += len(fs)
 		sort.Slice(fs, func(i, j int) bool { return len(fs[i].Input) < len(fs[j].Input) })
-		rp := filepath.Join(verifRoot, "replays", id, fmt.Sprintf("%s-seed%d-%s.json", tier, seed, sanitize(c)))
+		rp := filepath.Join(outRoot, "replays", id, fmt.Sprintf("%s-seed%d-%s.json", tier, seed, sanitize(c)))
 		rep := map[string]interface{}{"property": id, "class": c, "tier": tier, "seed": seed,
 			"count": len(fs), "case_index": fs[0].Idx, "input": fs[0].Input, "detail": fs[0].Detail}
 		raw, _ := json.MarshalIndent(rep, "", " ")
@@ -831,9 +844,9 @@ func run(id, tier string) int {
 		"wall_s":      time.Since(t0).Seconds(),
 		"violations":  violations,
 	}
-	os.MkdirAll(filepath.Join(verifRoot, "evidence"), 0o755)
+	os.MkdirAll(filepath.Join(outRoot, "evidence"), 0o755)
 	raw, _ := json.MarshalIndent(ev, "", " ")
-	os.WriteFile(filepath.Join(verifRoot, "evidence", id+".json"), append(raw, '\n'), 0o644)
+	os.WriteFile(filepath.Join(outRoot, "evidence", id+".json"), append(raw, '\n'), 0o644)
 
 	if violations > 0 {
 		fmt.Printf("property=%s tier=%s seed=%d evaluations=%d distinct=%d violations=%d\n", id, tier, seed, evals, len(keys), violations)
